@@ -287,6 +287,50 @@ def r9(ctx):
         ctx.emit('C08-R9', True, BTM, gens[0], f'{n} re-bindings of `{v}` between planning and generate_tasks: all are plain materialisations', key='planned-jobs-executed', nontrivial=n > 0)
 
 
+def whole_contig_task_unwindowed(ctx, rid):
+    """a task that names only a contig (start, end, fetch_start, fetch_end all None) is meant to take the whole contig: on every path of the prelude of
+    run_tagging_task the four stay None up to the molecule loop - with values the region filter of the loop wakes up, skips molecules whose site lies before
+    `start` and stops at the first site at or behind `fetch_end` (clipped / shifted sites at the contig borders, and everything still buffered)"""
+    from ..util import explore
+    f, loop = _task_loop(ctx)
+    pre = f.body[:f.body.index(loop)]
+    names = ('start', 'end', 'fetch_start', 'fetch_end')
+    params = {a.arg for a in f.args.args + f.args.kwonlyargs}
+    if not set(names) <= params:
+        ctx.emit(rid, False, TAGGING, f, f'run_tagging_task has no parameters {sorted(set(names) - params)}', key='whole-contig-task-unwindowed', undecided=True)
+        return
+    env0 = {n_: None for n_ in names}
+
+    def atoms(e):
+        t = src(e)
+        if t in ('contig is None',):
+            return False
+        if t in ('contig is not None', 'fetching'):
+            return True
+        return UNK
+    rs = explore(pre, atoms, names=names, env0=dict(env0))
+    ctx.counters['paths_enumerated'] += len(rs)
+    bad = None
+    n = 0
+    for r in rs:
+        if r['kind'] != 'fall':
+            continue
+        n += 1
+        for n_ in names:
+            if n_ in r['env'] and r['env'][n_] is not None and not (isinstance(r['env'][n_], ast.Constant) and r['env'][n_].value is None):
+                bad = (n_, src(r['env'][n_]) if isinstance(r['env'][n_], ast.AST) else str(r['env'][n_]), r['path'][-300:])
+    ctx.need(rid, n, 1, 'paths of a whole-contig task to the molecule loop')
+    ctx.emit(rid, bad is None, TAGGING, loop, f'{n} paths of a task without coordinates reach the molecule loop with start / end / fetch window still None (no region filter)' if bad is None else
+             f'a task without coordinates reaches the molecule loop with {bad[0]} = `{bad[1]}`: the region filter meant for binned jobs is switched on for a whole-contig job, molecules with a site outside '
+             f'[start, fetch_end) are skipped and the loop stops at the first site at or behind the window end (path ...{bad[2]})', key='whole-contig-task-unwindowed',
+             what='run_tagging_task: a whole-contig task is given a window and loses molecules at its borders')
+
+
+@rule('C08', 'C08-R10', 'a whole-contig task stays without a window inside the worker (shared with C05-R10, C20-R6): the region filter and the stop test of run_tagging_task only apply to binned jobs')
+def r10(ctx):
+    whole_contig_task_unwindowed(ctx, 'C08-R10')
+
+
 META = {
     'text': ('Decides: the per-job ownership test equals "other contig or site outside the half-open [start, end)" on every ordering, and the '
              'tested site is the molecule cut site; the early stop compares the site with the FETCH end; reads are fetched from the fetch window; '
